@@ -206,7 +206,10 @@ impl Rem for &Number {
         let b = rhs.value;
         let result = a % b;
         let result =
-            if a != 0. && (b.is_sign_negative() != a.is_sign_negative()) {
+            if a != 0.
+                && result != 0.
+                && (b.is_sign_negative() != a.is_sign_negative())
+            {
                 if b.is_finite() { result + b } else { f64::NAN }
             } else {
                 result
